@@ -41,6 +41,9 @@ pub enum Prog {
     /// read task 0, then commit "counter := the value just read" (an update that, as far as this
     /// handle knows, changes nothing) together with a change of another property
     WriteBackRead,
+    /// a long-lived handle: read the working set (as a report does), later rebuild it - whatever
+    /// the handle remembers from its first read must not survive another handle's commit
+    ReadThenRebuild(bool),
 }
 
 #[derive(Clone, Debug, PartialEq, serde::Serialize, serde::Deserialize)]
@@ -173,6 +176,16 @@ async fn run_prog(dir: PathBuf, prog: Prog, gate: GateH) -> Vec<Ev> {
                     Err(e) => log.push(Ev::Failed(format!("undo: {e:#}"))),
                 },
                 Err(e) => log.push(Ev::Failed(format!("get_undo: {e:#}"))),
+            }
+        }
+        Prog::ReadThenRebuild(renumber) => {
+            match (r.working_set().await, r.pending_task_data().await) {
+                (Ok(_), Ok(p)) => log.push(Ev::Read(p.len())),
+                (Err(e), _) | (_, Err(e)) => log.push(Ev::Failed(format!("read: {e:#}"))),
+            }
+            match r.rebuild_working_set(renumber).await {
+                Ok(()) => log.push(Ev::Rebuilt),
+                Err(e) => log.push(Ev::Failed(format!("rebuild: {e:#}"))),
             }
         }
         Prog::Rebuild(renumber) => match r.rebuild_working_set(renumber).await {
@@ -466,6 +479,9 @@ fn scenarios(tier: Tier) -> Vec<Sc17> {
         Sc17::new(vec![Sync, CommitThenUndo(1), Rebuild(false)]),
     ];
     // a handle writes back a value it read before another handle changed it
+    // a long-lived handle reads the working set, other handles commit new pending tasks, it rebuilds
+    v.push(Sc17::new(vec![ReadThenRebuild(false), CommitNew(1)]));
+    v.push(Sc17::new(vec![ReadThenRebuild(true), CommitNew(1), Reopen0]));
     v.push(Sc17::new(vec![WriteBackRead, ReadModifyWrite]));
     v.push(Sc17::new(vec![WriteBackRead, WriteBackRead, ReadModifyWrite]));
     // one very large commit (thousands of operations) racing a small one and a reader: still one
@@ -492,7 +508,7 @@ fn scenarios(tier: Tier) -> Vec<Sc17> {
 pub fn run(opts: &Opts) -> i32 {
     let rep = Report::new("C17", "model_checking", opts);
     rep.set("exhaustive", true);
-    rep.set("rule", "2-6 real SqliteStorage handles (each with its own actor thread; in some scenarios each in a child process of its own, driven over a pipe) on one database directory run programs {commit a new pending task, read-modify-write, re-open a completed task, commit + undo, rebuild the working set, read, two commits, a whole Replica::sync, one commit of 1200 (thorough 20000) operations racing a small commit or a reader, writing back a value read earlier}; every StorageTxn call of every handle is a scheduling point; a handle may start a transaction only when a harness probe connection (busy_timeout 0, BEGIN IMMEDIATE) finds the write lock free, so the code's real locking decides which interleavings exist; all interleavings are executed; afterwards a fresh handle audits: every successful commit present contiguously and in order, operation count, replay of stored operations = stored tasks, working set without duplicates or lost entries; non-trivial = executions with >= 2 successful commits");
+    rep.set("rule", "2-6 real SqliteStorage handles (each with its own actor thread; in some scenarios each in a child process of its own, driven over a pipe) on one database directory run programs {commit a new pending task, read-modify-write, re-open a completed task, commit + undo, rebuild the working set, read, read the working set and later rebuild it, two commits, a whole Replica::sync, one commit of 1200 (thorough 20000) operations racing a small commit or a reader, writing back a value read earlier}; every StorageTxn call of every handle is a scheduling point; a handle may start a transaction only when a harness probe connection (busy_timeout 0, BEGIN IMMEDIATE) finds the write lock free, so the code's real locking decides which interleavings exist; all interleavings are executed; afterwards a fresh handle audits: every successful commit present contiguously and in order, operation count, replay of stored operations = stored tasks, working set without duplicates or lost entries; non-trivial = executions with >= 2 successful commits");
     rep.assume("OS-thread preemption inside the actor thread and inside SQLite is not enumerated: only the order in which handles obtain the write lock, and the position of their individual storage calls relative to other handles' transactions");
     let deadline = std::time::Instant::now() + std::time::Duration::from_secs_f64(opts.budget_s);
     let scs = scenarios(opts.tier);
